@@ -92,7 +92,10 @@ def merge(R, ctx):
                 body = clo[0]["body"]["body"]
                 visits = any(x.get("k") == "Call" and x.get("fname") == "visit_expression" for x in thir.walk(body))
                 neg = any(x.get("k") == "Unary" and x.get("op") == "Not" and any(y.get("fname") == "has_found_usage" for y in thir.walk(x) if y.get("k") == "Call") for x in thir.walk(body))
-                ok_all = visits and neg and ("#param", 2) in fa.origins(c["args"][0])
+                # every value must be scanned: no early `return`/literal result inside the closure, the visit is unconditional
+                early = [x for x in thir.walk(body) if x.get("k") == "Return" or (x.get("k") == "Lit" and x.get("v") in ("true", "false"))]
+                cond_visit = any(x.get("k") in ("If", "Match") and any(y.get("k") == "Call" and y.get("fname") == "visit_expression" for y in thir.walk(x)) for x in thir.walk(body))
+                ok_all = visits and neg and ("#param", 2) in fa.origins(c["args"][0]) and not early and not cond_visit
     R.ob(rid, "should_merge|all-values-of-next-scanned", ok_all, ctx.where(fn), "`next.iter_mut_values().all(|e| { visit_expression(e, finder); !finder.has_found_usage() })`: %s" % ok_all)
     col = [c for c in thir.calls(fn) if c.get("fname") in ("collect", "from_iter")]
     ok_seed = any("iter_variables" in [y.get("fname") for y in fa.source_calls(c["args"][0])] and ("#param", 1) in fa.origins(c["args"][0]) for c in col)
